@@ -1,6 +1,8 @@
 use crate::infra::Prop;
 
+pub mod c05;
 pub mod c07;
+pub mod sem;
 pub mod c08;
 pub mod c09;
 pub mod c10;
@@ -12,12 +14,13 @@ pub mod c16;
 pub mod c17;
 
 pub fn all() -> Vec<&'static str> {
-    vec!["C07", "C08", "C09", "C10", "C11", "C13", "C14", "C15", "C16", "C17"]
+    vec!["C05", "C07", "C08", "C09", "C10", "C11", "C13", "C14", "C15", "C16", "C17"]
 }
 
 pub fn get(id: &str) -> Box<dyn Prop> {
     crate::bind::init();
     match id {
+        "C05" => Box::new(c05::C05),
         "C07" => Box::new(c07::C07),
         "C08" => Box::new(c08::C08),
         "C09" => Box::new(c09::C09),
@@ -32,6 +35,23 @@ pub fn get(id: &str) -> Box<dyn Prop> {
     }
 }
 
-pub fn extra_command(_cmd: &str, _args: &[String]) -> bool {
-    false
+pub fn extra_command(cmd: &str, args: &[String]) -> bool {
+    match cmd {
+        "count-typed" => {
+            let max: usize = args.first().and_then(|a| a.parse().ok()).unwrap_or(6);
+            let mut g = crate::enumerate::typed::Gen::new(crate::enumerate::typed::Config::standard());
+            for n in 1..=max {
+                let t = std::time::Instant::now();
+                let mut total = 0;
+                for goal in crate::enumerate::typed::goals() {
+                    let c = g.terms(&vec![], &goal, n).len();
+                    total += c;
+                    print!("{}:{} ", goal.show(), c);
+                }
+                println!("\nsize {n}: {total} programs ({:.2}s)", t.elapsed().as_secs_f64());
+            }
+            true
+        }
+        _ => false,
+    }
 }
